@@ -74,6 +74,7 @@ def run(repo, rep, tier):
     statistics_reentry_rule(repo, rep)
     staged_args_rule(repo, rep)
     record_staged_is_read_only(repo, rep)
+    staging_keywords_cannot_collide(repo, rep)
     from .c02 import operation_envelopes_agree
     operation_envelopes_agree(repo, rep, 'C19.R10', 'finally')
     ops = operations(repo)
@@ -785,3 +786,51 @@ def record_staged_is_read_only(repo, rep):
                         'clause of a successful operation' % norm(x, 50))
     if n < 2:
         raise AnalysisError('C19.R12: only %d record_staged() found' % n)
+
+
+def staging_keywords_cannot_collide(repo, rep):
+    """C19.R13: handing the call to the recorders cannot fail for arguments
+    the operation itself accepts.  An operation with `**params` (the input
+    parameters of a CIM method) that stages them as
+    `stage(method=..., A=A, **params)` raises TypeError ("multiple values
+    for keyword argument") when the caller's keywords contain one of the
+    explicitly named keywords that is not a parameter of the operation -
+    but only when a recorder is enabled; without recorders the same call
+    succeeds."""
+    r13 = rep.rule('C19.R13', 'keywords forwarded to the recorders cannot '
+                   'collide with the keywords the staging call names itself')
+    n = 0
+    for op in operations(repo):
+        f = op.func
+        kwname = f.node.args.kwarg.arg if f.node.args.kwarg else None
+        for c in walk_no_nested(f.node):
+            if not (isinstance(c, ast.Call) and
+                    (dotted(c.func) or '').startswith(
+                        'self.operation_recorder_stage_')):
+                continue
+            n += 1
+            r13.sites += 1
+            r13.functions.add(f.fq)
+            fwd = [k for k in c.keywords if k.arg is None and
+                   isinstance(k.value, ast.Name) and k.value.id == kwname]
+            own = set(f.params)
+            risky = sorted(k.arg for k in c.keywords
+                           if k.arg is not None and k.arg not in own) \
+                if fwd else []
+            r13.ob(not risky, '%s|%s' % (f.name, norm(c.func)),
+                   {'forwards': kwname if fwd else None, 'collides': risky})
+            if risky:
+                rep.finding(r13, f.qualname,
+                            '%s(%s, **%s)' % (
+                                norm(c.func),
+                                ', '.join(k_ + '=...' for k_ in risky),
+                                kwname),
+                            'keyword-collision', OPS, c.lineno,
+                            'the caller\'s **%s are forwarded next to the '
+                            'keyword(s) %s, which are not parameters of %s: '
+                            '%s(..., %s=x) works without recorders and '
+                            'raises TypeError (multiple values for keyword '
+                            'argument) when a recorder is enabled'
+                            % (kwname, risky, f.name, f.name, risky[0]))
+    if n < 30:
+        raise AnalysisError('C19.R13: only %d staging calls' % n)
